@@ -96,3 +96,11 @@ def _launch_src():
     from translate import gen_launch
     from vcheck import core
     return gen_launch.generate(os.path.join(core.REPO, 'src', 'kyupy', '__init__.py'))[0]
+
+
+@register('WaveEvalSrc')
+def _wave_eval_src():
+    import os
+    from translate import gen_wave_eval
+    from vcheck import core
+    return gen_wave_eval.generate(os.path.join(core.REPO, 'src', 'kyupy', 'wave_sim.py'))
